@@ -56,3 +56,16 @@ META = {
     "technique": "Lean 4 sequential-program proofs + event-system invariant (lock table) + regenerated gate expressions + differential "
                  "correspondence with a scripted lifecycle, lock stress and real gRPC gate probing + call-order facts",
 }
+
+# "the restart path drains before it mutates": ApplyPlanLive's StopAndWait ends with connector.Service.WaitPersisted, the durability
+# barrier after which the import may rewrite the connector records. The `live` job scripts StopAndWait; the barrier itself is the
+# real one here (seeded change C16_7: a bounded WaitPersisted lets the import start while the final position flush is in flight).
+PROP["jobs"].append(
+    {"harness": "h_srcack", "comp": "srccrash", "driver": "srcack", "n_quick": 300, "n_thorough": 4000, "timeout": 2400,
+     "relevant": lambda case: "commit-after-durability-barrier" in case["model"],
+     "why": "the durability barrier of StopAndWait (real connector.Service.WaitPersisted on the real Persister, slow commits): a commit of the "
+            "stopped pipeline's source position is observed after the barrier returned, i.e. after the point where ApplyPlanLive starts to "
+            "rewrite the stored connectors"})
+PROP["lean_modules"] += ["ConduitModel.Props.C03", "ConduitModel.Facts.C03"]
+PROP["rule"] += (" || srccrash: see C03 (acks, flushes with slow commits, Teardown, the WaitPersisted barrier `Wb`, crash + restart); relevant to "
+                 "C16 = a commit observed after the barrier returned")
